@@ -374,6 +374,50 @@ pub fn check_net(scratch: &Scratch, net: &Net, ni: usize, tier: Tier, st: &mut S
                     st.sample(5, || json!({"net": net, "format": fname, "rendered_route": out.get("route").and_then(|r| r.get("path")).cloned().unwrap_or(Value::Null)}));
                 }
             }
+            // two traversal plugins in one configuration, each rendering one of the two outputs: together they leave what one
+            // plugin configured with both leaves (a later plugin keeps what an earlier one rendered)
+            {
+                st.evaluations += 1;
+                st.transitions += 3;
+                st.traces += 1;
+                let mk = |r: bool, t: bool| TraversalPlugin::from_file(&gfile, if r { Some(*fmt) } else { None }, if t { Some(*fmt) } else { None }).ok().map(|p| Arc::new(p) as Arc<dyn OutputPlugin>);
+                let render = |chain: Vec<Arc<dyn OutputPlugin>>| {
+                    let result = app.run(&query, &SearchOrientation::Vertex);
+                    guarded(|| apply_output_processing(&query, result, &app, &chain))
+                };
+                let paths = |o: &Value| -> (Value, Value) {
+                    let route = match o.get("route") {
+                        Some(Value::Array(a)) => Value::Array(a.iter().map(|r| r.get("path").cloned().unwrap_or(Value::Null)).collect()),
+                        Some(r) => r.get("path").cloned().unwrap_or(Value::Null),
+                        None => Value::Null,
+                    };
+                    // a tree is rendered in the hash order of that search: two renderings hold the same branches in another order, so
+                    // it is compared by kind and rendered size
+                    let tree = o.get("tree").cloned().unwrap_or(Value::Null);
+                    let tree_shape = json!({"null": tree.is_null(), "string": tree.is_string(), "size": tree.to_string().len()});
+                    (route, tree_shape)
+                };
+                if let (Some(both), Some(r1), Some(t1)) = (mk(true, true), mk(true, false), mk(false, true)) {
+                    let summary: Arc<dyn OutputPlugin> = Arc::new(SummaryOutputPlugin {});
+                    let one = render(vec![summary.clone(), both]);
+                    for (name, chain) in [("route_then_tree", vec![summary.clone(), r1.clone(), t1.clone()]), ("tree_then_route", vec![summary.clone(), t1.clone(), r1.clone()])] {
+                        let comp = format!("{}.two_traversal_plugins.{}", fname, name);
+                        let case = || json!({"net": net, "format": fname, "algo": algo, "two_traversal_plugins": name, "net_index": ni});
+                        match (&one, &render(chain)) {
+                            (Ok(a), Ok(b)) if a.get("error").is_none() => {
+                                if b.get("error").is_none() && paths(a) == paths(b) {
+                                    st.pass("later_plugin_keeps_what_an_earlier_one_rendered");
+                                } else {
+                                    st.violation(&comp, "later_plugin_keeps_what_an_earlier_one_rendered", net.size(), || format!("one plugin with both outputs leaves route {} tree {} ; the two plugins leave {}", paths(a).0, paths(a).1, serde_json::to_string(&json!({"route": b.get("route"), "tree": b.get("tree"), "error": b.get("error")})).unwrap_or_default()), case);
+                                }
+                            }
+                            (Ok(_), Ok(_)) => {}
+                            (_, Err(p)) => st.violation(&comp, "no_panic", net.size(), || p.clone(), case),
+                            (Err(p), _) => st.violation(&comp, "no_panic", net.size(), || p.clone(), case),
+                        }
+                    }
+                }
+            }
         }
     }
     let _ = std::fs::remove_dir_all(&dir);
